@@ -705,9 +705,9 @@ func TestC06StalledSubscriber(t *testing.T) {
 
 // TestC06IdleDelivery: every accepted write-queue length, 0 included, lets a publication through
 // to a subscriber whose connection is idle ("queue space permitting" can only excuse a loss when
-// something is queued or in transmission).  Publications go out one at a time, each after every
-// subscriber has received the previous one and a short pause; a loss counts only if it shows in
-// three consecutive executions of the same case.
+// something is queued or in transmission).  Publications go out one at a time and are repeated,
+// with pauses, until every subscriber has them (at most 60 times); a loss counts only if it shows
+// in three consecutive executions of the same case.
 func TestC06IdleDelivery(t *testing.T) {
 	stats.ScaledChecks(12, 4, func() {
 		rapid.Check(t, func(t *rapid.T) {
@@ -744,18 +744,48 @@ func TestC06IdleDelivery(t *testing.T) {
 					subs = append(subs, s)
 				}
 				time.Sleep(5 * time.Millisecond)
+				// Whether a connection is idle at the instant of a Send cannot be observed (its sender
+				// goroutine may not have come back to the queue yet), so each publication is repeated,
+				// with pauses, until every subscriber has it: an implementation that can deliver to an
+				// idle connection gets through within a few tries, one that drops everything never does.
+				for _, s := range subs {
+					_ = s.SetOption(mangos.OptionRecvDeadline, 20*time.Millisecond)
+				}
 				for i := 0; i < nmsg; i++ {
 					body := []byte(fmt.Sprintf("idle-%04d", i))
-					if err := p.Send(body); err != nil {
-						return fmt.Sprintf("publish %d: %v", i, err), false
-					}
-					for si, s := range subs {
-						got, err := s.Recv()
-						if err != nil || !bytes.Equal(got, body) {
-							return fmt.Sprintf("subscriber %d of %d did not receive publication %d (got %q, %v) although its connection was idle", si, nsub, i, got, err), false
+					have := make([]bool, len(subs))
+					missing := len(subs)
+					for try := 0; try < 60 && missing > 0; try++ {
+						if err := p.Send(body); err != nil {
+							return fmt.Sprintf("publish %d: %v", i, err), false
+						}
+						for si, s := range subs {
+							for !have[si] {
+								got, err := s.Recv()
+								if err != nil {
+									break
+								}
+								if bytes.Equal(got, body) {
+									have[si] = true
+									missing--
+								}
+							}
+						}
+						if missing > 0 {
+							time.Sleep(3 * time.Millisecond)
 						}
 					}
-					time.Sleep(3 * time.Millisecond)
+					if missing > 0 {
+						return fmt.Sprintf("publication %d, sent 60 times with pauses, never reached %d of the %d subscribers although their connections were idle", i, missing, nsub), false
+					}
+					// drain repeats
+					for _, s := range subs {
+						for {
+							if _, err := s.Recv(); err != nil {
+								break
+							}
+						}
+					}
 				}
 				return "", true
 			}
